@@ -47,4 +47,22 @@ Step(s) ==
              [] kind = "literal" ->
                   IF t.k = "graph" /\ Len(r.graph) >= GraphCap THEN Fired(r)
                   ELSE Fired(PushOn(r, LiteralField(t.k), t.v))]
+
+---------------------------------------------------------------------------
+(* The bounded run loop of the interpreter as a control-state machine over (st, rl), in the order
+   of checks of the implementation: step-limit test, (time test), size sample, step, growth test,
+   counter increment.  rl = [pc, steps, outcome]. *)
+CopyToCode(s) == [s EXCEPT !.code = s.exec \o s.code]
+RunInit       == [pc |-> "start", steps |-> 0, outcome |-> "none"]
+RunStart(s, rl) == [st |-> CopyToCode(s), rl |-> [rl EXCEPT !.pc = "head"]]
+RunIter(s, rl) ==
+  IF rl.steps > s.cfg.push_limit
+  THEN [st |-> s, rl |-> [rl EXCEPT !.pc = "done", !.outcome = "StepLimitExceeded"]]
+  ELSE LET sr == Step(s) IN
+       IF sr.done THEN [st |-> s, rl |-> [rl EXCEPT !.pc = "done", !.outcome = "NoErrors"]]
+       ELSE IF StateSize(sr.res.post) > StateSize(s) + s.cfg.growth_cap
+       THEN [st |-> sr.res.post, rl |-> [rl EXCEPT !.pc = "done", !.outcome = "GrowthCapExceeded"]]
+       ELSE [st |-> sr.res.post, rl |-> [rl EXCEPT !.steps = @ + 1]]
+\* the time limit is abstract: it may only fire at the loop head, between two steps
+RunTimeLimit(s, rl) == [st |-> s, rl |-> [rl EXCEPT !.pc = "done", !.outcome = "TimeLimitExceeded"]]
 =============================================================================
